@@ -50,8 +50,12 @@ def precheck(pkg, sd, short, taken):
         if n in taken:
             return "bad"
     taken.update(names)
-    # an embedded struct with defaults of its own: promoted SetDefault (open finding)
     res = "in"
+    for fd in sd["fields"]:
+        if fd["names"] and (any(n.startswith("_") for n in fd["names"]) or
+                            (fd["tag"] is not None and 'new:"-"' in fd["tag"])):
+            res = "known"                     # an excluded field gets no option (K_opt_excluded_field)
+    # an embedded struct with defaults of its own: promoted SetDefault (open finding)
     for o in occ:
         if o[3] and o[4]:
             sub = ctorgen.struct_of(pkg, o[2])
@@ -59,7 +63,7 @@ def precheck(pkg, sd, short, taken):
                 if fd["names"] and ctorlib.parse_def(fd["doc"]) != "" and \
                         not all(n.startswith("_") or (fd["tag"] is not None and 'new:"-"' in fd["tag"]) for n in fd["names"]):
                     res = "known"
-    return res
+    return "known" if cls == "known" else res
 
 
 def gen_packages(run, n):
@@ -71,7 +75,7 @@ def gen_packages(run, n):
         name = "q%03d" % len(pkgs)
         short = run.rng.random() < 0.22
         style = run.rng.random()
-        opts = dict(p_generic=0.0, p_def=0.5, p_embed=0.8)
+        opts = dict(p_generic=0.0, p_def=0.5, p_embed=0.8, p_under=0.03, p_tag=0.12)
         if style < 0.15:
             opts.update(p_embed=0.0)
         elif style < 0.6:
@@ -79,6 +83,13 @@ def gen_packages(run, n):
         if short:
             opts.update(nstructs=run.rng.choice([1, 2, 2, 3]))
         pkg = ctorgen.gen_struct_pkg(run.rng, name, **opts)
+        if run.rng.random() < 0.85:
+            ctorgen.strip_defs_of_embedded(pkg)
+        if run.rng.random() < 0.7:                # an excluded field gets no option (K_opt_excluded_field): keep most types free of them
+            for sd0 in pkg["structs"]:
+                for fd0 in sd0["fields"]:
+                    if fd0["tag"] is not None and 'new:"-"' in fd0["tag"]:
+                        fd0["tag"] = None
         taken = set(sd["name"] for sd in pkg["structs"]) | set("New" + sd["name"] for sd in pkg["structs"])
         classes = [precheck(pkg, sd, short, taken) for sd in pkg["structs"]]
         if "bad" in classes or (classes.count("known") and run.rng.random() < 0.5):
@@ -91,8 +102,10 @@ def gen_packages(run, n):
     return pkgs, stats
 
 
-def gen_runs(rng, optfields, thorough):
-    """[(entry, [field,...])]"""
+def gen_runs(rng, optfields, thorough, nonbool=None):
+    """[(entry, [field,...])]; a repeated option is put on a non-bool field when there is one (two bool
+    sentinels can coincide, which would hide which of the two options won)"""
+    nonbool = [f for f in optfields if nonbool is None or f in nonbool]
     runs = []
     nseq = 5 if thorough else 3
     for entry in (0, 1, 2):
@@ -105,6 +118,8 @@ def gen_runs(rng, optfields, thorough):
                     ln = max(ln, 2)
                 seq = [rng.choice(optfields) for _ in range(ln)]
                 if ln >= 2 and rng.random() < 0.5:
+                    if nonbool:
+                        seq[0] = rng.choice(nonbool)
                     seq[-1] = seq[0]                 # a repeated option: the later one must win
             runs.append((entry, seq))
     return runs
@@ -226,7 +241,8 @@ def observe(run, shoot, sigbin, modname, pkgs):
                 continue
             st = info["structs"].get(sd["name"])
             if st is None or ("New" + sd["name"]) not in info["funcs"]:
-                o["status"] = 5
+                o["status"] = 6
+                o["errors"] = ["New%s / %s missing although the package type-checks" % (sd["name"], sd["name"])]
                 continue
             want = "shoot.Option[%s, *%s]" % (sd["name"], sd["name"])
             optfns = {n: f for n, f in info["funcs"].items() if f["results"] == [want] and len(f["params"]) == 1}
@@ -239,7 +255,8 @@ def observe(run, shoot, sigbin, modname, pkgs):
                 fn = pascal(name) if pkg["short"] else pascal(name) + "Of" + sd["name"]
                 if fn in optfns:
                     byfield[name] = fn
-            runs = gen_runs(run.rng, sorted(byfield), run.thorough())
+            nonbool = {f for f, fn in byfield.items() if optfns[fn]["params"][0][1] != "bool"}
+            runs = gen_runs(run.rng, sorted(byfield), run.thorough(), nonbool)
             sd["_runs"] = runs
             body += oracle_for_struct(pkg, sd, byfield, runs, key)
         if body:
@@ -259,13 +276,13 @@ def observe(run, shoot, sigbin, modname, pkgs):
                 continue
             d = cases.get("%s.%s#defs" % key)
             if d is None:
-                o["status"] = 5
+                o["status"] = 6
                 continue
             o["defs"] = [(k, t) for kind, k, t in d["reads"] if kind == "D"]
             for k, (entry, seq) in enumerate(sd["_runs"]):
                 c = cases.get("%s.%s#%d" % (key[0], key[1], k))
                 if c is None:
-                    o["status"] = 5
+                    o["status"] = 6
                     break
                 if entry == 0:
                     o["args"] = c["args"]
@@ -463,7 +480,9 @@ def main(run):
         "programs": len(pkgs),
         "structs": len(index),
         "structs_inside_guard_agreeing": compared,
-        "structs_outside_guard": sum(1 for v in verdicts.values() if v == 3),
+        "structs_outside_guard_compared_with_model": sum(1 for v in verdicts.values() if v == 3),
+        "structs_inside_guard_unobservable_sibling_error": sum(1 for v in verdicts.values() if v == 5),
+        "runs_property_not_evaluated": panics,
         "runs_by_entry": {str(k): v for k, v in sorted(entry_hist.items())},
         "runs_by_length": {str(k): v for k, v in sorted(len_hist.items())},
         "runs_with_repeated_option": repeats, "runs_panicking_as_modelled": panics,
@@ -480,9 +499,12 @@ def main(run):
     }
     return run.finish(cov, assumptions=c02.ASSUMPTIONS + [
         "c13_guard additionally: no type parameters (K_opt_generic), no embedded struct with defaults of its own "
-        "(K_opt_promoted_setdefault), distinct non-empty Pascal-cased option names",
-        "runs that assign through a nil embedded pointer (zero value / NewWith) are compared against the model's Panic "
-        "outcome (K_opt_nil_embed) and the property's sentence is not evaluated on them",
+        "(K_opt_promoted_setdefault), no excluded field in the struct (K_opt_excluded_field), distinct non-empty "
+        "Pascal-cased option names -- with -short distinct package-wide and from the type / constructor names "
+        "(K_opt_short_collision)",
+        "runs that assign through a nil embedded pointer (zero value / NewWith) must panic and are compared against the "
+        "model's Panic outcome (K_opt_nil_embed); the last-wins sentence is not evaluated on them (counted as "
+        "runs_property_not_evaluated)",
     ])
 
 
